@@ -14,6 +14,14 @@ const RUST_KEYWORDS: &[&str] = &[
 
 pub(crate) fn keyword_replace<'a>(needle: impl Into<Cow<'a, str>>) -> Cow<'a, str> {
     let needle = needle.into();
+    // Case conversion strips leading underscores (`_1` becomes `1`, `_` becomes the empty string),
+    // and neither those nor a lone `_` are identifiers.
+    if needle.is_empty() || needle == "_" {
+        return "__".into();
+    }
+    if needle.starts_with(|c: char| c.is_ascii_digit()) {
+        return ["_", needle.as_ref()].concat().into();
+    }
     match RUST_KEYWORDS.binary_search(&needle.as_ref()) {
         Ok(index) => [RUST_KEYWORDS[index], "_"].concat().into(),
         Err(_) => needle,
